@@ -527,18 +527,29 @@ class Run:
         for fn, arg in sorted(set(MUTATIONS)):
             self.a_fail.append((dict(function=fn, argument=arg), "frame condition: %s() changed its argument %s in place (the model's functions are pure)" % (fn, arg)))
         known = [k for k in load_known() if k.get("property") == self.prop and k.get("status") == "known"]
-        known_sigs = {k["signature"]: k for k in known}
+        def known_for(case, sig):
+            # a recorded finding is identified by its signature AND the specific input ("match": case fields that must be equal), so
+            # that a different violation of the same property, or the same kind of failure on another input, is still reported
+            cj = jsonable(case)
+            for k in known:
+                if k["signature"] == sig and k.get("match") and all(cj.get(kk) == vv for kk, vv in k["match"].items()):
+                    return k
+            return None
         lines = []
         violations = 0
         seen_known = set()
         new_b = []
         for case, what, sig in self.b_fail:
-            if sig in known_sigs:
+            kf = known_for(case, sig)
+            if kf is not None:
                 if sig not in seen_known:
                     seen_known.add(sig)
-                    lines.append("KNOWN-FINDING: property=%s %s [%s]" % (self.prop, known_sigs[sig]["what"], sig))
+                    lines.append("KNOWN-FINDING: property=%s %s [%s]" % (self.prop, kf["what"], sig))
             else:
                 new_b.append((case, what, sig))
+        for k in known:
+            if k["signature"] not in seen_known and self.only_case is None:
+                lines.append("KNOWN-FINDING: property=%s %s [%s] (recorded input; not drawn at this seed -- replay: see KNOWN_FINDINGS.jsonl)" % (self.prop, k["what"], k["signature"]))
         if new_b:
             # one VIOLATION line per distinct signature, first failing case as replay
             done = set()
